@@ -220,6 +220,9 @@ def _vanishes_on(ctx, den, d) -> bool:
 
 
 def check(model, rep):
+    # hidden state Python keeps outside the objects (not modelled by the evaluator): reported before anything else is evaluated
+    from checks.solver_common import package_lints as _package_lints
+    _package_lints(model, rep, 'C08.hidden-state', ('/dc_motor.py',))
     rep.explain('C08: DCMotor.compute_torque / compute_electric_current evaluated by gated value numbering '
                 '(sa.sx) into canonical rational terms over the motor constants, speed and duty cycle, '
                 'in SI-magnitude space with symbolic unit factors; each specified case (guards incl. <= at '
